@@ -44,6 +44,14 @@ def check(ctx, rep):
     li = loops[0]
     rep.require(len(li.scanned) == 1, "TimeoutExecutor: expected exactly one scanned job list, found %s" % sorted(li.scanned))
     JF = sorted(li.scanned)[0]
+    # the job list is shared between submitters and the timeout thread: every walk over it is under its lock (or
+    # over a copy), so that rebuilding it from a walk cannot lose a job appended meanwhile
+    rep.rule("R-GUARDED", "every walk over the timeout executor's job list happens with the list's lock held or over a copy of the list; the rebuilt list is stored in the same hold of the lock as the walk it was computed from")
+    from .. import roles as _roles
+    nwalk = _roles.iteration_rule(ctx, rep, _roles.Queue(ctx, li.owner, field=JF), "R-GUARDED")
+    rep.count("walks over the timeout job list", nwalk, 1)
+    nreb = _roles.rebuild_rule(ctx, rep, li.owner, JF, "R-GUARDED", "the timeout job list")
+    rep.count("rebuilds of the timeout job list", nreb, 1)
 
     # ------------------------------------------------------------------ submit path
     st = tex.methods.get("submit_timeout")
